@@ -3,7 +3,7 @@ import itertools
 
 import numpy as np
 
-from symtt.core import scenario, HarnessError, SkipTV
+from symtt.core import unchanged_inputs, scenario, HarnessError, SkipTV
 from symtt import dense as D
 from .common import meta_ok, free_policy
 from .C15 import _funcs
@@ -71,6 +71,7 @@ def _gen_grid(tier):
 
 
 @scenario('C19', 'generator_on_product', _gen_grid)
+@unchanged_inputs('b', 'sigma')
 def generator_on_product(ctx, d, d2, mix):
     """L(prod f_k) and its reversible gradient form, for every index tuple"""
     tg, tdt = ctx.R.tgedmd, ctx.R.transform
@@ -179,6 +180,7 @@ def _dense_L(ctx, phi, n, x, b, sig, l, d, d2, rev):
 
 
 @scenario('C19', 'reduced_matrix', _rm_grid)
+@unchanged_inputs('x', 'b', 'sigma')
 def reduced_matrix(ctx, rev, d, d2, mix, m, reweight):
     """_reduced_matrix_tgedmd with free cores / singular values / right factors == dense projected generator matrix"""
     tg, tdt = ctx.R.tgedmd, ctx.R.transform
@@ -271,6 +273,7 @@ def reduced_matrix(ctx, rev, d, d2, mix, m, reweight):
 
 @scenario('C19', 'amuset', lambda tier: [{'rev': rev, 'opt': opt, 'reweight': rw, 'num': num} for rev in (False, True) for opt in ('eigenfunctionevals', 'eigentensors', 'eigenvectors')
                                           for rw in (False, True) for num in (None, 1) if not (rw and opt != 'eigenfunctionevals')])
+@unchanged_inputs('x', 'b', 'sigma')
 def amuset(ctx, rev, opt, reweight, num):
     """amuset_hosvd end to end: HOSVD arguments and reweighting, eigen-solver argument == reduced matrix, descending order, num_eigvals, return options"""
     tg, tdt = ctx.R.tgedmd, ctx.R.transform
